@@ -75,6 +75,25 @@ def handle (op : String) (args : List String) (impl : String) : Option Verdict :
       | some o => decide (P01 inp o)
       | none => false
     return ⟨showOut m, ok, s!"{sk}>{dk}:{if wf then "wf" else "nwf"}:{outClass m}"⟩
+  | "e2e", [sk, dk, s, d, nonce, rid, a1, a2] => some <| Id.run do
+    let some sk' := parseSk sk | return bad
+    let some dk' := parseDk dk | return bad
+    let some s := s.toNat? | return bad
+    let some d := d.toNat? | return bad
+    let some nonce := nonce.toNat? | return bad
+    let some rid := fromHex rid | return bad
+    let some cd := fromHex a1 | return bad
+    let some resp := fromHex a2 | return bad
+    let inp : Input := ⟨sk', dk', ⟨s, d, nonce, rid⟩, cd, resp, 0⟩
+    -- inside ProcessDeposits a handler error is logged and a panic recovered: no message
+    let m := match relay inp with
+      | .errSrc | .panicSrc => "none"
+      | o => showOut o
+    let wf := (expected inp).isSome
+    let ok := match (if impl = "none" then some Out.errSrc else parseOut impl) with
+      | some o => decide (P01 inp o)
+      | none => false
+    return ⟨m, ok, s!"e2e:{sk}>{dk}:{if wf then "wf" else "nwf"}:{if m = "none" then "none" else outClass (relay inp)}"⟩
   | _, _ => none
 
 end Sygma.Drv.C01
